@@ -2210,15 +2210,30 @@ func (s *swamp) SaveFunction(t treasure.Treasure, guardID guard.ID) treasure.Tre
 			if t.GetContentType() != treasure.ContentTypeVoid {
 				s.addTreasureToBeacons(t)
 			}
-		} else if t.IsExpirationTimeChanged() {
-			// ExpirationTime moved (e.g. via PatchTreasures meta). Refresh
-			// only the expiration-time beacon: drop the stale entry and
-			// re-add it under the new sort key — unless the new value is 0
-			// ("never expires"), in which case leave it removed.
-			s.deleteTreasureIfBeaconInitialized(s.expirationTimeBeaconASC, t.GetKey())
-			s.deleteTreasureIfBeaconInitialized(s.expirationTimeBeaconDESC, t.GetKey())
-			if t.GetExpirationTime() != 0 {
-				s.addToExpirationTimeBeacon(t)
+		} else {
+			if t.IsExpirationTimeChanged() {
+				// ExpirationTime moved (e.g. via PatchTreasures meta). Refresh
+				// only the expiration-time beacon: drop the stale entry and
+				// re-add it under the new sort key — unless the new value is 0
+				// ("never expires"), in which case leave it removed.
+				s.deleteTreasureIfBeaconInitialized(s.expirationTimeBeaconASC, t.GetKey())
+				s.deleteTreasureIfBeaconInitialized(s.expirationTimeBeaconDESC, t.GetKey())
+				if t.GetExpirationTime() != 0 {
+					s.addToExpirationTimeBeacon(t)
+				}
+			}
+			// CreatedAt / UpdatedAt / value moved. The beacons hold the live
+			// treasure, so re-adding it (a no-op when it is already indexed)
+			// and re-sorting puts it at its new position; a record that gets
+			// its first timestamp enters the index here.
+			if t.IsCreatedAtChanged() && t.GetCreatedAt() != 0 {
+				s.addToCreationTimeBeacon(t)
+			}
+			if t.IsModifiedAtChanged() && t.GetModifiedAt() != 0 {
+				s.addToUpdateTimeBeacon(t)
+			}
+			if t.IsContentChanged() && t.GetContentType() != treasure.ContentTypeVoid {
+				s.addToValueBeacon(t)
 			}
 		}
 
